@@ -12,7 +12,7 @@ import common as C
 FILES = ["spec/RewritingRules.tla", "spec/MC_RewritingRules.tla", "spec/Trace_RewritingRules.tla", "lib/rrengine.py", "lib/common.py"]
 C13_JUDGES = {"ResultOrUnreachable", "SelectComplete", "WellTyped", "UsesAttachedRules", "ElimOnlyRemoves", "ElimComplete",
               "OutcomeIff", "AppliedIsDerivation", "AppliedIsBest"}
-C02_JUDGES = {"RuleSound", "ProtectedNeverPub", "ExposureSound", "RootNotExposed"}
+C02_JUDGES = {"RuleSound", "ProtectedNeverPub", "ExposureSound", "RootNotExposed", "ResultNotExposed"}
 
 
 def cache_key(tier):
@@ -43,7 +43,9 @@ def encode(o):
     return {"tree": o.get("real_tree", o["tree"]), "sd": o["sd"], "strategy": o["strategy"], "entry": o["entry"],
             "set_rules": o.get("set_rules", []), "kept_rules": o.get("kept_rules", []), "derivs": derivs,
             "outcome": o.get("outcome", "panic") if "phases_panic" not in o and "harness_panic" not in o else "panic",
-            "chosen": chosen, "model_chosen": mc, "model_outcome": m["outcome"]["k"]}
+            "chosen": chosen, "model_chosen": mc, "model_outcome": m["outcome"]["k"],
+            # exposure measured on the relation the entry point itself returned (whether or not it was matched to a derivation)
+            "result_exposure": o.get("result_exposure", "none")}
 
 
 def run(tier):
